@@ -19,6 +19,7 @@ import EmitModel.Lemmas.BatcherExt
 import EmitModel.Model.OtlpE2E
 import EmitModel.Lemmas.FilePipe
 import EmitModel.Lemmas.OtlpPipe
+import EmitModel.Lemmas.OtlpAll
 
 namespace EmitModel.C07
 open EmitModel.Batcher EmitModel.Sched
@@ -398,5 +399,50 @@ theorem file_pipeline_records_wellformed (cfg : FilePipe.Cfg) (E : List Nat → 
   · exact .inl h
   · exact .inr (.inl h)
   · exact .inr (.inr ⟨ht, h⟩)
+
+end EmitModel.C07
+
+/-! ### The OTLP emitter with its three signals (Model/OtlpAll.lean) -/
+namespace EmitModel.C07
+open EmitModel.Batcher EmitModel.Sched EmitModel.Otlp
+
+/-- **A successful flush of the OTLP emitter means answered, signal by signal.** In every execution of the whole
+    emitter — events of any shape emitted in any order and routed by `OtlpInner::emit` (C14), the three signals' channels,
+    workers and collectors running interleaved in any way, each against any collector script — once the callback of a
+    flush watcher `w` registered on signal `g` has run (`Otlp::blocking_flush` registers one per configured signal and
+    reports success only when all have, `otlp_flush_true_iff`), every event that signal had accepted before the
+    registration is one the routing assigns to `g` and no other signal, and it was cleared by a counted overflow
+    truncation of `g`'s channel, belongs to a batch `g` gave up, or is in a request `g`'s collector acknowledged. -/
+theorem otlp_emitter_flush_means_answered (cfg : OtlpAll.Cfg) (net0 : Signal → Net) (s : OtlpAll.St)
+    (h : OtlpAll.Reachable cfg net0 s) (g : Signal) (hn : (s.get g).ch.registered.Nodup)
+    (ht : (s.get g).ch.tornDown = false) (w : Nat) (acc : List Nat)
+    (ha : (w, acc) ∈ (s.get g).ch.acceptedAt) (hf : w ∈ (s.get g).ch.fired) :
+    ∀ x ∈ acc, route cfg.logs cfg.traces cfg.metrics (cfg.shape x) = .signal g ∧
+      (x ∈ (s.get g).ch.truncations.flatten ∨ x ∈ (s.get g).failed ∨
+        OtlpPipe.Delivered (cfg.pipe g).tr (s.get g).net.log (x : Int)) := by
+  intro x hx
+  obtain ⟨hr, hrouted⟩ := OtlpAll.reachable_sig cfg net0 s h g
+  have hsub := (Batcher.invAcc_reachable (cfg.pipe g).ch (s.get g).ch
+    (OtlpPipe.reachable_proj (cfg.pipe g) (net0 g) (s.get g) hr)).sub (w, acc) ha x hx
+  exact ⟨hrouted x hsub, otlp_flush_means_answered (cfg.pipe g) (net0 g) (s.get g) hr hn ht w acc ha hf x hx⟩
+
+/-- non-vacuity: logs and traces configured; events 0 and 2 are logs, event 1 is a span; the traces collector answers 503
+    once; a flush watcher registered on traces fires after the retry: the one event the traces signal had accepted is the
+    span, delivered on traces; the log events sit in the logs channel, untouched -/
+private def spanShape : Shape := { kind := .span, extent := .range, hasName := false, value := .missing, agg := .missing }
+private def logShape : Shape := { kind := .none, extent := .point, hasName := false, value := .missing, agg := .missing }
+private def acfg : OtlpAll.Cfg :=
+  { logs := true, traces := true, metrics := false,
+    pipe := fun _ => { ch := Batcher.Cfg.real 10, tr := .http, limit := 100, size := fun _ => 1 },
+    shape := fun x => if x = 1 then spanShape else logShape }
+private def anet : Signal → Net := fun g =>
+  { dead := false, script := if g = .traces then [.status 503] else [], slot := false, conns := 0, log := [] }
+private def alabels : List OtlpAll.Label :=
+  [.emit 0, .emit 1, .emit 2, .sig .traces (.chan (.whenFlushed 7)), .sig .traces (.chan .rxTake), .sig .traces (.chan .rxBegin),
+   .sig .traces .process, .sig .traces (.chan .rxRetryWaited), .sig .traces .process, .sig .traces (.chan .rxFireFlush)]
+example : ((Sched.run (OtlpAll.step acfg) (OtlpAll.init anet) alabels).map fun s =>
+    (s.traces.ch.fired, s.traces.ch.acceptedAt, s.traces.okd, s.logs.ch.accepted,
+     s.traces.net.log.map (fun e => (e.ids, okResp .http e.resp)), s.logs.net.log.length, s.traces.ch.tornDown)) =
+    some ([7], [(7, [1])], [1], [0, 2], [(some [1], true), (some [1], false)], 0, false) := by rfl
 
 end EmitModel.C07
